@@ -84,7 +84,13 @@ def concretise_ops(prop: str, default_modes=("interp", "interp+opt")):
         kc = known_cases(prop)
         skip = {(c["grammar"], c["text"]) for c in kc.values()}
         out = []
+        if any(lab.startswith(("pest.stack.", "pest.checkpoint_int.", "pest.state.ParserState.checkpoint", "pest.state.ParserState.ok", "pest.state.ParserState.restore")) for lab in labels):
+            from . import c09
+
+            out += c09.concretise(tier, seed, refuted, undecided, known)
         for lab in labels:
+            if lab.startswith(("pest.stack.", "pest.checkpoint_int.")):
+                continue
             modes = ("gen", "gen+opt") if ("generate" in lab or "template" in lab) else default_modes
             res = diff4.search(diff4.families_for(lab), modes, limit=1, skip=skip)
             for r in res:
